@@ -356,7 +356,15 @@ func strLen(L *LState) int {
 
 func strLower(L *LState) int {
 	str := L.CheckString(1)
-	L.Push(LString(strings.ToLower(str)))
+	// byte-wise like tolower() in the "C" locale: a Lua string is a byte
+	// string, bytes >= 0x80 must come back unchanged
+	buf := []byte(str)
+	for i, c := range buf {
+		if 'A' <= c && c <= 'Z' {
+			buf[i] = c + ('a' - 'A')
+		}
+	}
+	L.Push(LString(buf))
 	return 1
 }
 
@@ -436,7 +444,14 @@ func strSub(L *LState) int {
 
 func strUpper(L *LState) int {
 	str := L.CheckString(1)
-	L.Push(LString(strings.ToUpper(str)))
+	// byte-wise like toupper() in the "C" locale (see strLower)
+	buf := []byte(str)
+	for i, c := range buf {
+		if 'a' <= c && c <= 'z' {
+			buf[i] = c - ('a' - 'A')
+		}
+	}
+	L.Push(LString(buf))
 	return 1
 }
 
